@@ -11,6 +11,7 @@ package main
 //     and after the native replay on the real build reproduces it.
 
 import (
+	"regexp"
 	"bytes"
 	"encoding/hex"
 	"fmt"
@@ -26,6 +27,12 @@ import (
 )
 
 var pureFuncs = map[string]any{
+	"regexp.compileErr": func(p string) string {
+		if _, err := regexp.Compile(p); err != nil {
+			return err.Error()
+		}
+		return ""
+	},
 	"strings.Cut":            strings.Cut,
 	"strings.CutPrefix":      strings.CutPrefix,
 	"strings.CutSuffix":      strings.CutSuffix,
@@ -56,6 +63,9 @@ var pureFuncs = map[string]any{
 	"strconv.FormatInt":      strconv.FormatInt,
 	"strconv.FormatBool":     strconv.FormatBool,
 	"strconv.Quote":          strconv.Quote,
+	"strconv.AppendQuote":    func(dst, s string) string { return string(strconv.AppendQuote([]byte(dst), s)) },
+	"strconv.AppendQuoteToASCII": func(dst, s string) string { return string(strconv.AppendQuoteToASCII([]byte(dst), s)) },
+	"strconv.AppendInt":      func(dst string, i int64, base int) string { return string(strconv.AppendInt([]byte(dst), i, base)) },
 	"strconv.Unquote":        strconv.Unquote,
 	"strconv.QuoteToASCII":   strconv.QuoteToASCII,
 	"encoding/hex.EncodeToString": func(b string) string { return hex.EncodeToString([]byte(b)) },
@@ -107,6 +117,9 @@ var pureFuncs = map[string]any{
 
 // byte-slice parameters / results of the real function are carried as Go strings by the adaptor
 var pureBytesParams = map[string][]int{
+	"strconv.AppendQuote":         {0},
+	"strconv.AppendQuoteToASCII":  {0},
+	"strconv.AppendInt":           {0},
 	"encoding/hex.EncodeToString": {0},
 	"bytes.Equal":                 {0, 1},
 	"bytes.Contains":              {0, 1},
@@ -117,6 +130,9 @@ var pureBytesParams = map[string][]int{
 	"bytes.Count":                 {0, 1},
 }
 var pureBytesResults = map[string][]int{
+	"strconv.AppendQuote":        {0},
+	"strconv.AppendQuoteToASCII": {0},
+	"strconv.AppendInt":          {0},
 	"encoding/hex.DecodeString": {0},
 }
 
@@ -482,6 +498,28 @@ func pureLemmas(mod *Model, q []*Term) []*Term {
 	return out
 }
 
+// trickyStrings: values on which library functions typically disagree with each other (quoting,
+// escaping, case folding, UTF-8 handling). Used as candidate witnesses for string atoms that flow
+// into uninterpreted library functions; every candidate is checked by the solver and natively.
+var trickyStrings = []string{"\x1b[0m", "\x00", "a\x7fb", "<&>", "é", "\\", "\"", "İ", "a b", "\u2028", " ", "%41", "A", "-1", "+1", "1e3", "0x10", "08", "a.b", "a,b", "(", "\xff"}
+
+func trickyCandidates(q []*Term, round int) []*Term {
+	var out []*Term
+	seen := map[*Term]bool{}
+	k := 0
+	for _, u := range subterms(q, func(t *Term) bool { return t.kind == KApp && t.uf && strings.HasPrefix(t.op, "pure:") }) {
+		for a := range u.Atoms() {
+			if a.sort != SStr || seen[a] {
+				continue
+			}
+			seen[a] = true
+			out = append(out, TEq(a, TStr(trickyStrings[(round+k)%len(trickyStrings)])))
+			k++
+		}
+	}
+	return out
+}
+
 func constTermOf(v any, s Sort) *Term {
 	switch x := v.(type) {
 	case string:
@@ -546,6 +584,14 @@ func init() {
 		}
 	}
 	pureModelAxioms["pure:strings.Cut"] = cut
+	// an invalid pattern contains a metacharacter; the error text quotes the pattern
+	pureModelAxioms["pure:regexp.compileErr"] = func(u *Term) []*Term {
+		var meta []*Term
+		for _, c := range []string{"(", ")", "[", "\\", "*", "+", "?", "{"} {
+			meta = append(meta, TContains(u.args[0], TStr(c)))
+		}
+		return []*Term{TImplies(TNot(TEq(u, TStr(""))), TAnd(TOr(meta...), TContains(u, u.args[0])))}
+	}
 	// definitional hints for witness search only (every witness is validated natively afterwards)
 	pureModelAxioms["pure:strings.ContainsAny"] = func(u *Term) []*Term {
 		if u.args[1].kind != KConst {
